@@ -185,6 +185,22 @@ def chk_refuse(case, acc, seed):
         acc.violation('resample:non-uniform-wrong-exception', case, repr(e))
     if pdig(p) != d0:
         acc.violation('resample:refusal-mutates', case, 'refused resample changed the plane')
+    # a plane sampled differently along rows and columns can be rescaled (not resampled): each pixel scale is divided by s
+    for s_ in (0.5, 1, 1.5, 2):
+        for ps in ((1e-3, 2e-3), (3e-3, 1e-3)):
+            p = plane((24, 30), 'mono', seed, pixelscale=ps)
+            try:
+                q = p.rescale(s_)
+            except Exception as e:
+                acc.violation(f'rescale:non-uniform:raises:{type(e).__name__}', dict(case, scale=s_, pixelscale=ps), repr(e))
+                continue
+            if q.pixelscale is None or not np.allclose(q.pixelscale, (ps[0] / s_, ps[1] / s_), rtol=1e-14, atol=0):
+                acc.violation('rescale:non-uniform:pixelscale', dict(case, scale=s_, pixelscale=ps), f'pixel scale {q.pixelscale} != {(ps[0] / s_, ps[1] / s_)}')
+            if tuple(q.shape) != (math.ceil(24 * s_), math.ceil(30 * s_)):
+                acc.violation('rescale:non-uniform:shape', dict(case, scale=s_, pixelscale=ps), f'{q.shape}')
+            if tuple(p.pixelscale) != ps:
+                acc.violation('rescale:non-uniform:original-modified', dict(case, scale=s_, pixelscale=ps), f'{p.pixelscale}')
+    acc.cls('non-uniform-sampling')
     # a plane without pixel scale can still be rescaled; the pixel scale stays undefined
     p = plane((24, 24), 'mono', seed, pixelscale=None)
     q = p.rescale(2)
@@ -278,7 +294,7 @@ def run(tier, seed, acc, procs=None):
         'bounds': {'shapes': shapes(tier), 'scales': SCALES},
         'assumptions': ['"interpolation accuracy" is a bounded numerical statement: tolerances are 10x above the spline noise measured on '
                         'this alphabet and far below the factor s^2 (power) or s (pixel scale) that a convention error produces'],
-        'require': {'rescale:down': 8, 'rescale:up': 30, 'resample:identity': 4, 'seg:seg2': 40, 'refusals': 1, 'history': 30, 'again': 200, 'seg:intmask': 40, 'amp:complex': 40, 'fine-sampling': 100},
+        'require': {'rescale:down': 8, 'rescale:up': 30, 'resample:identity': 4, 'seg:seg2': 40, 'refusals': 1, 'history': 30, 'again': 200, 'seg:intmask': 40, 'amp:complex': 40, 'fine-sampling': 100, 'non-uniform-sampling': 1},
     }
 
 
